@@ -470,8 +470,8 @@ def transport(name, timeout=3000, **over):
     c = dict(FullRollback=True, OneWayT=False, Stateful=True, NonceMode="lo", MaxSend=2, Depth=4, BadBudget=1,
              SetBudget=1, RekeyBudget=0, SmallBufs=True, BigBudget=0, PayBase=70, EmitEdges=True)
     c.update(over)
-    # explicit key / counter changes are followed by a probe round trip (the edge cover alone compares counters only)
-    c.setdefault("Probes", c["RekeyBudget"] > 0 or c["SetBudget"] > 0)
+    # every edge is followed by a probe round trip (the edge cover alone compares the reported counters only)
+    c.setdefault("Probes", True)
     return run_tlc("MC_Transport", c, invariants=["InvT"], name=name, timeout=timeout, view="ViewT",
                    action_constraint="EmitEdge")
 
@@ -479,7 +479,10 @@ def transport(name, timeout=3000, **over):
 RULE_T = ("TLC explores spec/MC_Transport.tla exhaustively up to the stated depth/budgets and emits EVERY EDGE of the state "
           "graph with a shortest path to its source (history hidden by a VIEW): one implementation test per model "
           "transition; each is replayed after a real handshake of a protocol name of the class (the model's keys K1/K2 are "
-          "bound to the session's split keys, which C01 checks independently); distinct = distinct (edge, name) pairs; ")
+          "bound to the session's split keys, which C01 checks independently); every edge is followed by a PROBE round "
+          "trip computed by the model from the post-state (I writes, R reads it, R writes, I reads it), so that the keys "
+          "and counters both sides really hold after the edge - not only the counters the API reports - are compared "
+          "byte for byte whatever path led there; distinct = distinct (edge, name) pairs; ")
 
 
 def tlegs(prop, seed, configs, per_scn=1):
